@@ -157,6 +157,46 @@ def r4_folder_level(ctx):
                 r.violation(fns[0].root + "|" + "+".join(ops), cfg.loc(fns[0].main), "%s does not call %s on the search index" % (what, ops), work=1)
             else:
                 r.anchor_missing(rx)
+        # must-pass-through: a successful return skips the index operation only
+        # when there is no index (the None arm of search_index_mut()), never
+        # because of another condition such as `apply_event` (merged deletions
+        # come with apply_event == false)
+        for f in fns:
+            for b in f.bodies:
+                live = cfg.live_blocks(b)
+                sites = [i for i, t in idioms.real_calls(b, live) if cname(t) == ops[0] and re.search(r"(SearchIndex|AccountSearch)", t.get("callee") or "")]
+                if not sites:
+                    continue
+                oks = [e.block for e in cfg.exits(b) if e.kind == "ok"]
+                cut_edges = set()
+                for i, t in idioms.real_calls(b, live):
+                    if cname(t) in ("search_index_mut", "search_index") and t.get("t") is not None:
+                        # Option switch reached from the call
+                        seen, stack = set(), [t["t"]]
+                        while stack:
+                            x = stack.pop()
+                            if x in seen or x not in live:
+                                continue
+                            seen.add(x)
+                            es = cfg.enum_switch(b, x)
+                            if es and es.enum == "core::option::Option":
+                                if "None" in es.targets:
+                                    cut_edges.add((x, es.targets["None"]))
+                                elif es.otherwise_live:
+                                    cut_edges.add((x, es.otherwise))
+                                break
+                            tt = b.blocks[x].get("term") or {}
+                            if tt.get("k") == "call" and not idioms.is_noise(tt):
+                                break
+                            stack.extend(cfg.succs(b)[x])
+                bad = [o for o in oks if o in cfg.reach(b, [0], cut_blocks=sites, cut_edges=cut_edges)]
+                k = f.root + "|" + ops[0] + "-unconditional"
+                if bad:
+                    p_ = cfg.find_path(b, [0], bad, cut_blocks=sites, cut_edges=cut_edges)
+                    r.violation(k, cfg.loc(b, sites[0]), "%s can succeed without SearchIndex::%s although an index exists (the call sits behind another condition): documents of the folder stay searchable" % (what, ops[0]),
+                                work=len(live), witness=cfg.path_lines(b, p_))
+                else:
+                    r.ok(k, cfg.loc(b, sites[0]), "every successful path with an index passes SearchIndex::%s" % ops[0], work=len(live))
 
 
 SI = "sos_search::search::SearchIndex::"
@@ -260,6 +300,64 @@ def r5_counters(ctx):
         r.anchor_missing("public SearchIndex methods that remove documents (found %d)" % n)
 
 
+DOC_COUNT = "sos_search::search::DocumentCount"
+
+
+def r6_counters_symmetric(ctx):
+    """DocumentCount::add and ::remove treat every counter alike with respect
+    to the archive folder: a counter that is incremented for archived documents
+    must also be decremented for them (and vice versa), or it drifts away from
+    what a rebuilt index reports."""
+    ws = ctx.ws
+    r = ctx.rule("C20-R6", "DocumentCount::add and ::remove guard the same counters with the archive test",
+                 floor=1, kind="K5 sibling agreement (guarded field sets)")
+    counters = {"vaults", "kinds", "tags", "favorites"}
+    out = {}
+    for nm in ("add", "remove"):
+        f = ws.fn("%s::%s" % (DOC_COUNT, nm))
+        if not f:
+            r.anchor_missing("DocumentCount::" + nm)
+            return
+        b = f.main
+        live = cfg.live_blocks(b)
+        gate = None
+        for i, t in idioms.real_calls(b, live):
+            if cname(t) == "is_archived" and t.get("t") is not None:
+                bs = cfg.bool_switch(b, t["t"])
+                if bs:
+                    gate = bs
+        if gate is None:
+            r.violation("%s::%s|archive-gate" % (DOC_COUNT, nm), cfg.loc(b), "%s no longer tests is_archived" % nm, work=1)
+            return
+        not_arch = cfg.reach(b, [gate.false_t], cut_blocks=[gate.block]) - cfg.reach(b, [gate.true_t], cut_blocks=[gate.block])
+        touched = {}
+        for i in live:
+            blk = b.blocks[i]
+            places = []
+            for st in blk["s"]:
+                for key in ("d", "p"):
+                    if st.get(key):
+                        places.append(st[key])
+                for o in st.get("ops", []) or []:
+                    if cfg.op_place(o):
+                        places.append(cfg.op_place(o))
+            for o in (blk.get("term") or {}).get("args", []) or []:
+                if cfg.op_place(o):
+                    places.append(cfg.op_place(o))
+            for p_ in places:
+                for fl in cfg.place_fields(p_):
+                    if fl in counters and cfg.place_local(p_) == 1:
+                        touched.setdefault(fl, set()).add(i)
+        out[nm] = ({fl for fl, bl in touched.items() if bl <= not_arch}, set(touched), cfg.loc(b, gate.block))
+    (ga, ta, la), (gr, tr, lr) = out["add"], out["remove"]
+    k = DOC_COUNT + "|archive-guard-symmetric"
+    if ga == gr and ta == tr:
+        r.ok(k, la, "both skip exactly %s for the archive folder and touch %s" % (sorted(ga), sorted(ta)), work=2)
+    else:
+        r.violation(k, lr, "add skips %s for the archive folder but remove skips %s (counters touched: add %s, remove %s): a counter incremented for an archived document is never decremented again (or the reverse), so the statistics drift from a rebuilt index" % (
+            sorted(ga), sorted(gr), sorted(ta), sorted(tr)), work=2)
+
+
 # extra build configurations analysed in the thorough tier
 THOROUGH_CONFIGS = []  # without feature `search` there is no index and no instance (the configuration must only compile)
 
@@ -278,3 +376,4 @@ def run(ctx):
     r3_who_mutates(ctx)
     r4_folder_level(ctx)
     r5_counters(ctx)
+    r6_counters_symmetric(ctx)
